@@ -75,7 +75,7 @@ var atoms = []struct {
 var stmtAtoms = []string{"assign-oob", "assign-string", "assign-immutable", "not-iterable", "selector-assign-nonmap"}
 
 var forms = []string{"exprstmt", "define", "assign-global-like", "if-cond", "for-cond", "return", "call-arg", "array-elem", "compound-assign", "index-of"}
-var placements = []string{"iife", "main-offset0-import", "module-offset0-later-module", "copied-func", "plain", "in-if-body", "in-else-body", "in-for-body", "in-forin-body", "after-dead-code", "in-nested-func", "in-closure", "module-func", "module-top"}
+var placements = []string{"iife", "main-offset0-import", "module-offset0-later-module", "copied-func", "plain", "in-if-body", "in-else-body", "in-for-body", "in-forin-body", "after-dead-code", "in-nested-func", "in-closure", "module-func", "module-top", "recursive-late-fail", "mutual-recursive-late-fail"}
 var callForms = []string{"define", "exprstmt", "return", "if-cond", "arg"}
 
 // prelude defines the variables the atoms use (as locals of the failing function / globals in main).
@@ -227,6 +227,43 @@ func build(c Case) *gen.Program {
 	}
 	if c.Form == "return" && !(inFunc || c.Placement == "in-nested-func" || c.Placement == "in-closure") {
 		return nil
+	}
+	if c.Placement == "recursive-late-fail" || c.Placement == "mutual-recursive-late-fail" {
+		// f0(n): returns from its own recursive call first, then (in the activation n == 1) fails in a later
+		// statement, then would call again; the callers n = 2..D are all suspended in the same call statement.
+		// Depth d gives D = d + 1 activations below main.
+		if c.Depth == 0 || c.Form == "return" {
+			return nil
+		}
+		I, N, B := gen.I, gen.N, gen.B
+		callee := "f0"
+		if c.Placement == "mutual-recursive-late-fail" {
+			callee = "g0"
+		}
+		rec := func(arg gen.Expr) gen.Expr { return &gen.Call{F: I(callee), Args: []gen.Expr{arg}} }
+		fb := append(prelude(),
+			&gen.If{Cond: B("==", I("n"), N("0")), Then: []gen.Stmt{&gen.Return{X: N("0")}}},
+			gen.Def("x", rec(B("-", I("n"), N("1")))),
+			&gen.If{Cond: B("==", I("n"), N("1")), Then: fs},
+			gen.Def("x2", rec(N("0"))),
+			&gen.Return{X: I("x")})
+		p := &gen.Program{}
+		main := []gen.Stmt{gen.Def("g0", gen.Undef()), gen.Def("f0", &gen.FuncLit{Params: []string{"n"}, Body: fb})}
+		if callee == "g0" {
+			main = append(main, gen.Set(I("g0"), &gen.FuncLit{Params: []string{"m"}, Body: []gen.Stmt{
+				gen.Def("pad", N("5")), &gen.Return{X: &gen.Call{F: I("f0"), Args: []gen.Expr{I("m")}}}}}))
+		}
+		top := &gen.Call{F: I("f0"), Args: []gen.Expr{N(strconv.Itoa(c.Depth + 1))}}
+		switch c.CallForm {
+		case "define":
+			main = append(main, gen.Def("r0", top))
+		case "exprstmt":
+			main = append(main, &gen.ExprStmt{X: top})
+		default:
+			return nil
+		}
+		p.Main = main
+		return p
 	}
 	var body []gen.Stmt
 	if c.Placement == "after-dead-code" {
